@@ -150,7 +150,16 @@ def call(kind, c, fn_desc, args, k):
       other_w = lambda cont: o0(*unpack(cont))
     args = pack(args)
   if kind in ('jit', 'remat'):
-    tf = c['_cache'].setdefault((kind, id(fn_desc), wrap), nnx.jit(f) if kind == 'jit' else nnx.remat(f))
+    if kind == 'jit' and c.get('shard'):
+      # in_shardings given as StateSharding with several filters (all None on this single device): the call is a plain jit
+      sh = nnx.StateSharding({nnx.BatchStat: None, nnx.Param: None, nnx.Cache: None, ...: None}) if c['shard'] == 3 else nnx.StateSharding({nnx.Param: None, ...: None})
+      mk = lambda: nnx.jit(f, in_shardings=tuple(sh for _ in args))
+    else:
+      mk = lambda: (nnx.jit(f) if kind == 'jit' else nnx.remat(f))
+    key_ = (kind, id(fn_desc), wrap, c.get('shard'))
+    if key_ not in c['_cache']:
+      c['_cache'][key_] = mk()
+    tf = c['_cache'][key_]
     nkw = c.get('nkw', 0) if kind == 'jit' and not wrap else 0
     out = tf(*args[:len(args) - nkw], **{'kw%d' % i: a for i, a in enumerate(args[len(args) - nkw:])})
     return out if has_obj else (out, None)
